@@ -447,6 +447,38 @@ impl Property for C01 {
                 if b.len() < 100_000 {
                     check_tx_bytes(&b, &mut o)?;
                 }
+                // the id follows the contents through every mutator (no stale memo): get_id interleaved with setters
+                if r.ins.len() + r.outs.len() <= 40 {
+                    let mut t = parsed.clone();
+                    let id_now = |t: &Transaction| -> Result<(), Failure> {
+                        let bytes = t.to_bytes().map_err(|e| failure("to_bytes", e.to_string(), "Ok"))?;
+                        let got = lib_call("get_id_hex", || t.get_id_hex())?.map_err(|e| failure("get_id_hex", e.to_string(), "Ok"))?;
+                        if got != hex::encode(ref_txid_display(&bytes)) {
+                            return Err(failure("txid_follows_contents", got, format!("{} (reversed sha256d of the current serialisation)", hex::encode(ref_txid_display(&bytes)))));
+                        }
+                        Ok(())
+                    };
+                    id_now(&t)?;
+                    let v2 = t.set_version(r.version ^ 0x0100);
+                    id_now(&t)?;
+                    id_now(&v2)?;
+                    let l2 = t.set_nlocktime(r.locktime.wrapping_add(7));
+                    id_now(&t)?;
+                    id_now(&l2)?;
+                    t.add_output(&TxOut::new(5, &Script::default()));
+                    id_now(&t)?;
+                    if let Some(mut i0) = t.get_input(0) {
+                        i0.set_sequence(i0.get_sequence() ^ 1);
+                        t.set_input(0, &i0);
+                        id_now(&t)?;
+                        t.prepend_input(&i0);
+                        id_now(&t)?;
+                    }
+                    let c2 = t.clone();
+                    t.set_version(r.version);
+                    id_now(&c2)?;
+                    id_now(&t)?;
+                }
                 // (c) construction API
                 let built = construct(&r, *build)?;
                 let built_bytes = lib_call("to_bytes(constructed)", || built.to_bytes())?.map_err(|e| failure("to_bytes", e.to_string(), "Ok"))?;
